@@ -339,6 +339,62 @@ def n_params(sd, cd, layers):
     return sum((a + 1) * b for a, b in zip(sizes, sizes[1:]))
 
 
+def short_lived_systems(ctx):
+    """The factories are handed systems that live only for the call - a
+    2-d one, then (after it was collected) a 3-d one, and so on: what they
+    return must fit the system they were just given (dimensions, and a call
+    with a state of that size works)."""
+    import gc
+
+    from moptipyapps.dynamic_control.controllers.ann import anns
+    from moptipyapps.dynamic_control.controllers.cubic import cubic
+    from moptipyapps.dynamic_control.controllers.linear import linear
+    from moptipyapps.dynamic_control.controllers.min_ann import min_anns
+    from moptipyapps.dynamic_control.controllers.partially_linear import (
+        partially_linear,
+    )
+    from moptipyapps.dynamic_control.controllers.peaks import peaks
+    from moptipyapps.dynamic_control.controllers.predefined import predefined
+    from moptipyapps.dynamic_control.controllers.quadratic import quadratic
+    from moptipyapps.dynamic_control.systems.lorenz import make_lorenz
+    from moptipyapps.dynamic_control.systems.stuart_landau import (
+        make_stuart_landau,
+    )
+    rng = ctx.rng
+    facts = {"linear": linear, "quadratic": quadratic, "cubic": cubic,
+             "partially_linear": partially_linear, "peaks": peaks,
+             "min_anns": min_anns, "predefined": predefined, "anns": anns}
+    for name, fact in facts.items():
+        for rep in range(6):
+            dims = 2 + rep % 2
+            gc.collect()
+            got = fact((make_stuart_landau if dims == 2
+                        else make_lorenz)(4 + rep))
+            got = [got] if hasattr(got, "controller") else list(got)
+            ctx.case()
+            ctx.count("factory_calls_with_a_short_lived_system")
+            for c in got:
+                ok = c.state_dims == dims and c.control_dims == 1
+                why = (f"state_dims={c.state_dims}, control_dims="
+                       f"{c.control_dims}")
+                if ok:
+                    try:
+                        out = np.zeros(1)
+                        c.controller(rng.uniform(-1, 1, dims), 0.5,
+                                     rng.uniform(-1, 1, c.param_dims), out)
+                        ok = bool(np.isfinite(out[0]))
+                        why = f"output {out[0]!r}"
+                    except Exception as e:  # noqa: BLE001
+                        ok, why = False, f"the call raised {e!r}"[:200]
+                if not ok:
+                    ctx.violation(
+                        "controller-does-not-fit-the-system-it-was-made-for",
+                        f"{name}(<a fresh {dims}-d system>) returned "
+                        f"{c.name!r}: {why}",
+                        ctx.shard_replay_case(what="short-lived", fam=name))
+                    return
+
+
 def run_shard(ctx, args):
     from moptipyapps.dynamic_control.controllers.ann import anns, make_ann
     rng = ctx.rng
@@ -348,6 +404,7 @@ def run_shard(ctx, args):
         cs = controllers_for(dims)
         for nm, deg in (("linear", 1), ("quadratic", 2), ("cubic", 3)):
             poly_structure(ctx, cs[nm], dims, deg)
+    short_lived_systems(ctx)
     # make_ann(1, ...) is accepted by make_ann but rejected by Controller
     try:
         make_ann(1, 1, [2])
